@@ -252,6 +252,7 @@ func (s *SpecValidator) validateDuplicatePropertyNames() *Result {
 			for _, v := range dups {
 				pns = append(pns, v.Definition+"."+v.Name)
 			}
+			sort.Strings(pns) // properties are found in map order: the message must not depend on it
 			res.AddErrors(duplicatePropertiesMsg(k, pns))
 		}
 
@@ -676,7 +677,15 @@ func (s *SpecValidator) validateParameters() *Result {
 	rexGarbledPathSegment := mustCompileRegexp(`.*[{}\s]+.*`)
 	for method, pi := range s.expandedAnalyzer().Operations() {
 		methodPaths := make(map[string]map[string]string)
-		for path, op := range pi {
+		// paths are visited in order: which of several overlapping paths is reported against
+		// which must not depend on the iteration order of the map
+		paths := make([]string, 0, len(pi))
+		for path := range pi {
+			paths = append(paths, path)
+		}
+		sort.Strings(paths)
+		for _, path := range paths {
+			op := pi[path]
 			if s.Options.StrictPathParamUniqueness {
 				pathToAdd := pathHelp.stripParametersInPath(path)
 
